@@ -76,9 +76,15 @@ pub fn panic_msg(p: &(dyn std::any::Any + Send)) -> String {
 }
 
 type Handles = Vec<Option<Arc<dyn Handle>>>;
+/// slot table of one run: (version, expression) published by one thread for the others
+pub type Slots = Arc<std::sync::Mutex<Vec<Option<(u32, Arc<dyn Handle>)>>>>;
+
+pub fn new_slots() -> Slots {
+    Arc::new(std::sync::Mutex::new(vec![None; 4]))
+}
 
 /// Executes one operation. Pure with respect to everything but `handles` (Drop).
-pub fn exec_op(op: &Op, handles: &mut Handles) -> String {
+pub fn exec_op(op: &Op, handles: &mut Handles, slots: &Slots) -> String {
     let get = |handles: &Handles, j: usize| handles.get(j).cloned().flatten();
     match op {
         Op::Parse { kind, form, text, compile, .. } => match make_handle(*kind, *form, text, *compile) {
@@ -112,11 +118,64 @@ pub fn exec_op(op: &Op, handles: &mut Handles) -> String {
             }
             "dropped".to_string()
         }
+        Op::Publish { slot, version, kind, form, text, compile } => {
+            match make_handle(*kind, *form, text, *compile) {
+                Ok(h) => {
+                    let old = {
+                        let mut g = slots.lock().unwrap_or_else(|e| e.into_inner());
+                        g.get_mut(*slot).and_then(|s| s.replace((*version, h)))
+                    };
+                    drop(old);
+                    "published".to_string()
+                }
+                Err(m) => format!("notpublished:{m}"),
+            }
+        }
+        Op::EvalSlot { slot, point, mode } => {
+            let cur = {
+                let g = slots.lock().unwrap_or_else(|e| e.into_inner());
+                g.get(*slot).cloned().flatten()
+            };
+            match cur {
+                Some((v, h)) => {
+                    // the version tag must survive a panicking evaluation (natural operator panics are
+                    // ordinary observations); an injected fault keeps unwinding to the operation boundary
+                    let res = match catch_unwind(AssertUnwindSafe(|| h.eval(*point, *mode, 0))) {
+                        Ok(s) => s,
+                        Err(p) if p.is::<Injected>() => std::panic::resume_unwind(p),
+                        Err(p) => format!("panic:{}", panic_msg(&*p)),
+                    };
+                    format!("v{v}:{res}")
+                }
+                None => "absent".to_string(),
+            }
+        }
+        Op::Unpublish { slot } => {
+            let old = {
+                let mut g = slots.lock().unwrap_or_else(|e| e.into_inner());
+                g.get_mut(*slot).and_then(|s| s.take())
+            };
+            drop(old);
+            "unpublished".to_string()
+        }
     }
 }
 
-pub fn guarded(op: &Op, handles: &mut Handles) -> Obs {
-    match catch_unwind(AssertUnwindSafe(|| exec_op(op, handles))) {
+/// Does the observation of an operation agree with its reference? For everything but `EvalSlot`
+/// that is equality. What an `EvalSlot` sees depends on the schedule (nothing yet, or any version
+/// the publisher has put there); its reference lists the result for every version, and the
+/// observation must be "absent" or the listed result of the version it saw.
+pub fn obs_matches(op: &Op, got: &str, reference: &str) -> bool {
+    match op {
+        Op::EvalSlot { .. } => {
+            got == "absent" || reference.split('\u{1}').any(|entry| entry == got)
+        }
+        _ => got == reference,
+    }
+}
+
+pub fn guarded(op: &Op, handles: &mut Handles, slots: &Slots) -> Obs {
+    match catch_unwind(AssertUnwindSafe(|| exec_op(op, handles, slots))) {
         Ok(s) => Obs::Done(canonical(&s)),
         Err(p) => match p.downcast_ref::<Injected>() {
             Some(inj) => Obs::Victim(inj.site),
@@ -160,6 +219,8 @@ pub fn reference(w: &Workload) -> Vec<Vec<String>> {
     // identical operations have identical references by definition (every reference is computed on
     // pristine state), so each distinct operation is executed once
     let mut memo: std::collections::HashMap<String, String> = std::collections::HashMap::new();
+    // Publish / Unpublish in the reference act on a table nobody reads
+    let ref_slots = new_slots();
     w.threads
         .iter()
         .map(|ops| {
@@ -179,6 +240,26 @@ pub fn reference(w: &Workload) -> Vec<Vec<String>> {
                     if let Some(v) = memo.get(&key) {
                         return v.clone();
                     }
+                    if let Op::EvalSlot { slot, point, mode } = op {
+                        // one entry per version ever published into this slot (fresh parse each)
+                        let mut entries: Vec<String> = Vec::new();
+                        for pop in w.threads.iter().flatten() {
+                            if let Op::Publish { slot: s, version, kind, form, text, compile } = pop {
+                                if s == slot {
+                                    let h = catch_unwind(AssertUnwindSafe(|| make_handle(*kind, *form, text, *compile).ok()))
+                                        .unwrap_or(None);
+                                    if let Some(h) = h {
+                                        let res = catch_unwind(AssertUnwindSafe(|| h.eval(*point, *mode, 0)))
+                                            .unwrap_or_else(|p| format!("panic:{}", panic_msg(&*p)));
+                                        entries.push(canonical(&format!("v{version}:{res}")));
+                                    }
+                                }
+                            }
+                        }
+                        let v = entries.join("\u{1}");
+                        memo.insert(key, v.clone());
+                        return v;
+                    }
                     let mut handles: Handles = vec![None; w.shared.len()];
                     if live {
                         let j = op.shared_index().unwrap();
@@ -188,7 +269,7 @@ pub fn reference(w: &Workload) -> Vec<Vec<String>> {
                         }))
                         .unwrap_or(None);
                     }
-                    let v = match guarded(op, &mut handles) {
+                    let v = match guarded(op, &mut handles, &ref_slots) {
                         Obs::Done(s) => s,
                         Obs::Victim(_) => "victim-in-reference?!".to_string(),
                     };
@@ -221,21 +302,43 @@ impl ExecCfg {
 
 /// Concurrent phase only. Returns per-thread observations, per-thread O2
 /// findings (single-thread histories check immutability after every op) and the report.
+fn concurrent_owned(
+    w: &Workload,
+    source: Source,
+    cfg: &ExecCfg,
+    shared: Handles,
+) -> (Vec<Vec<Obs>>, Vec<Violation>, SimReport, bool) {
+    // every simulated thread gets its own clones; ours are dropped before the first thread runs
+    concurrent_impl(w, source, cfg, &shared, Some(shared.clone()))
+}
+
 fn concurrent(
     w: &Workload,
     source: Source,
     cfg: &ExecCfg,
     shared: &Handles,
 ) -> (Vec<Vec<Obs>>, Vec<Violation>, SimReport, bool) {
+    concurrent_impl(w, source, cfg, shared, None)
+}
+
+fn concurrent_impl(
+    w: &Workload,
+    source: Source,
+    cfg: &ExecCfg,
+    shared: &Handles,
+    give_away: Option<Handles>,
+) -> (Vec<Vec<Obs>>, Vec<Violation>, SimReport, bool) {
     let n = w.threads.len();
     let sim = Sim::new(n, source, w.faults.clone(), cfg.max_steps, cfg.alloc_every);
     let w_arc = Arc::new(w.clone());
+    let slots = new_slots();
     let check_each = n == 1;
     let mut joins = Vec::new();
     for tid in 0..n {
         let sim = sim.clone();
         let w = w_arc.clone();
         let mut handles: Handles = shared.clone();
+        let slots = slots.clone();
         let jh = std::thread::Builder::new()
             .stack_size(STACK)
             .spawn(move || {
@@ -245,7 +348,7 @@ fn concurrent(
                 let body = catch_unwind(AssertUnwindSafe(|| {
                     for (i, op) in w.threads[tid].iter().enumerate() {
                         sim.begin_op(tid, i as u32, op_tag(op, &w));
-                        let o = guarded(op, &mut handles);
+                        let o = guarded(op, &mut handles, &slots);
                         obs.push(o);
                         if check_each {
                             crate::sched::suspended(|| {
@@ -267,7 +370,10 @@ fn concurrent(
                         }
                     }
                 }));
-                crate::sched::suspended(|| drop(handles));
+                crate::sched::suspended(|| {
+                    drop(handles);
+                    drop(slots);
+                });
                 sim.finish(tid);
                 if let Err(p) = body {
                     viol.push(Violation {
@@ -284,6 +390,7 @@ fn concurrent(
             .expect("spawn");
         joins.push(jh);
     }
+    drop(give_away);
     sim.start();
     let done = sim.wait_done(cfg.stall_ms, cfg.hang_ms);
     let mut all_obs = Vec::new();
@@ -306,8 +413,20 @@ fn concurrent(
 
 /// Runs the workload under `source` and applies all oracles.
 pub fn execute(w: &Workload, source: Source, cfg: &ExecCfg) -> Outcome {
-    let shared = parse_shared(w);
-    let (obs, mut violations, report, hung) = concurrent(w, source, cfg, &shared);
+    let mut shared = parse_shared(w);
+    let weak: Vec<Option<std::sync::Weak<dyn Handle>>> =
+        shared.iter().map(|h| h.as_ref().map(Arc::downgrade)).collect();
+    let (obs, mut violations, report, hung) = if w.main_keeps_handles {
+        concurrent(w, source, cfg, &shared)
+    } else {
+        // hand the only strong references to the simulated threads
+        let given = std::mem::take(&mut shared);
+        concurrent_owned(w, source, cfg, given)
+    };
+    if !w.main_keeps_handles {
+        // whatever is still alive (it should not be) is looked at below
+        shared = weak.iter().map(|x| x.as_ref().and_then(|x| x.upgrade())).collect();
+    }
     // after a hang the stuck threads may hold real locks for ever: touch nothing of the code under test
     let reference = if hung { Vec::new() } else { reference(w) };
     if hung {
@@ -328,7 +447,7 @@ pub fn execute(w: &Workload, source: Source, cfg: &ExecCfg) -> Outcome {
             match obs[t].get(i) {
                 Some(Obs::Done(got)) => {
                     let exp = &reference[t][i];
-                    if got != exp {
+                    if !obs_matches(op, got, exp) {
                         violations.push(Violation {
                             oracle: "O1".into(),
                             thread: t,
